@@ -53,12 +53,12 @@ def main(ck):
     ck.cov["trusted_base"] = ["Coq 8.16.1 kernel + vm_compute (cases evaluation, Example)", "no axioms (Print Assumptions: closed)",
                               "Go harness cmd/c14, python driver props/C14/run.py"]
     ck.coq_audit(["C14"])
-    ok = ck.coq_build(["C14/Proofs.vo", "C14/Inv.vo", "C14/Corr.vo", "C14/XCorr.vo"])
+    ok = ck.coq_build(["C14/Proofs.vo", "C14/Inv.vo", "C14/Corr.vo", "C14/XCorr.vo", "C14/XProofs.vo", "C14/XInv.vo"])
     if ok:
-        ck.coq_props(["C14/Props.v"])
+        ck.coq_props(["C14/Props.v", "C14/Refuted.v"])
         if ck.tier == "thorough":
-            ck.coq_build(["C14/Props.vo"])
-            ck.coqchk(["OG.C14.Props"])
+            ck.coq_build(["C14/Props.vo", "C14/Refuted.vo"])
+            ck.coqchk(["OG.C14.Props", "OG.C14.Refuted"])
     binp = ck.go_build("./cmd/c14", "c14")
     if not binp:
         return
